@@ -123,7 +123,7 @@ def bt_def(order, y):
     return p
 
 
-@harness("c15.bt_pdf", extra=EXTRA, float_mix="real")
+@harness("c15.bt_pdf", extra=EXTRA, float_mix="real", path_alarm=1500.0)
 def bt_pdf(ctx):
     bg = env.import_generators()
     P = ctx.params
@@ -152,50 +152,58 @@ def bt_pdf(ctx):
 
 @harness("c15.sbt_pdf", extra=EXTRA, float_mix="real")
 def sbt_pdf(ctx):
+    """ballot-type tables of BOTH blocs of one generator-like object (own cohesion symbolic for each bloc:
+    equal values, and state shared between the two computations, are part of the explored space)"""
     bg = env.import_generators()
     from votekit.pref_interval import PreferenceInterval
     P = ctx.params
     a, b = P["sizes"]
     blocs = ["X", "Y"]
-    coh = fl(ctx, "c", lo=0, hi=1)
+    cx = fl(ctx, "c", lo=0, hi=1)
+    cy = fl(ctx, "cy", lo=0, hi=1)
     obj = object.__new__(bg.slate_BradleyTerry)
     obj.blocs = blocs
     slates = {"X": [f"x{i}" for i in range(a)], "Y": [f"y{i}" for i in range(b)]}
     zero_x = P.get("zero_x", 0)
-    obj.pref_intervals_by_bloc = {"X": {"X": PreferenceInterval({c: (0.0 if i < zero_x else 1.0) for i, c in enumerate(slates["X"])}),
-                                        "Y": PreferenceInterval({c: 1.0 for c in slates["Y"]})}}
-    obj.cohesion_parameters = {"X": {"X": coh, "Y": (sub(1, coh) if ctx.sym else 1 - coh)}}
-    try:
-        pdf = obj._compute_ballot_type_dist("X", "Y")
-    except ZeroDivisionError:
-        ctx.require(False if False else True, "c15:sbt-degenerate")
-        return {"kind": "zerodiv"}
-    except Exception as exc:
-        ctx.fail(f"c15:sbt-raises:{type(exc).__name__}", str(exc)[:200])
-        return {"kind": "exc"}
+    ivx = lambda: PreferenceInterval({c: (0.0 if i < zero_x else 1.0) for i, c in enumerate(slates["X"])})
+    ivy = lambda: PreferenceInterval({c: 1.0 for c in slates["Y"]})
+    obj.pref_intervals_by_bloc = {"X": {"X": ivx(), "Y": ivy()}, "Y": {"X": ivx(), "Y": ivy()}}
+    one = lambda v: (sub(1, v) if ctx.sym else 1 - v)
+    obj.cohesion_parameters = {"X": {"X": cx, "Y": one(cx)}, "Y": {"X": one(cy), "Y": cy}}
     na = a - zero_x
-    types = set(itertools.permutations(["X"] * na + ["Y"] * b))
-    if set(pdf) != types:
-        ctx.fail("c15:sbt-support", f"{sorted(pdf)}")
-        return {"kind": "bad"}
-    cc = ex(coh)
-    def g(t):
-        own = sum(t[i + 1:].count("Y") for i, x in enumerate(t) if x == "X")
-        other = na * b - own
-        if ctx.canary == "swap-cohesion":
-            own, other = other, own
-        r = RealFraction(1)
-        for _ in range(own):
-            r = mul(r, cc)
-        for _ in range(other):
-            r = mul(r, sub(1, cc))
-        return r
-    gs = {t: g(t) for t in types}
-    tot = add(*gs.values())
-    for t in types:
-        same(ctx, pdf[t], div(gs[t], tot), "c15:sbt-probability", f"P({t}) is not proportional to c^own-above-other * (1-c)^other-above-own")
-    same(ctx, add(*[v if isinstance(v, core.SF) else ex(v) for v in pdf.values()]), 1, "c15:sbt-sums-to-one")
-    return {"kind": "ok", "n": len(types)}
+    for own, opp, coh in (("X", "Y", cx), ("Y", "X", cy)):
+        try:
+            pdf = obj._compute_ballot_type_dist(own, opp)
+        except ZeroDivisionError:
+            ctx.require(True, "c15:sbt-degenerate")
+            continue
+        except Exception as exc:
+            ctx.fail(f"c15:sbt-raises:{type(exc).__name__}", str(exc)[:200])
+            return {"kind": "exc"}
+        types = set(itertools.permutations(["X"] * na + ["Y"] * b))
+        if set(pdf) != types:
+            ctx.fail("c15:sbt-support", f"{sorted(pdf)}")
+            return {"kind": "bad"}
+        cc = ex(coh)
+        def g(t):
+            ownabove = sum(t[i + 1:].count(opp) for i, x in enumerate(t) if x == own)
+            other = na * b - ownabove
+            if ctx.canary == "swap-cohesion":
+                ownabove, other = other, ownabove
+            r = RealFraction(1)
+            for _ in range(ownabove):
+                r = mul(r, cc)
+            for _ in range(other):
+                r = mul(r, sub(1, cc))
+            return r
+        gs = {t: g(t) for t in types}
+        tot = add(*gs.values())
+        if ctx.truth(eq(tot, 0)) if ctx.sym else tot == 0:
+            continue
+        for t in types:
+            same(ctx, pdf[t], div(gs[t], tot), "c15:sbt-probability", f"bloc {own}: P({t}) is not proportional to c^own-above-other * (1-c)^other-above-own")
+        same(ctx, add(*[v if isinstance(v, core.SF) else ex(v) for v in pdf.values()]), 1, "c15:sbt-sums-to-one")
+    return {"kind": "ok"}
 
 
 @harness("c15.model_interval", extra=EXTRA, float_mix="real")
@@ -243,7 +251,7 @@ def tasks(tier, seed):
         out.append({"harness": "c15.interval", "params": {"cands": list("abcde")[:n]}, "name": f"interval n={n}", "xval_stride": 1})
     for groups in ([["a", "b"], ["c"]], [["a"], ["b"], ["c"]]) + (() if q else ([["a", "b"], ["c", "d"], ["e"]],)):
         out.append({"harness": "c15.combine", "params": {"groups": groups}, "name": f"combine {groups}", "xval_stride": 1, "split": 2})
-    for n in ((2, 3, 4) if q else (2, 3, 4, 5, 6)):
+    for n in ((2, 3, 4) if q else (2, 3, 4, 5)):
         out.append({"harness": "c15.bt_pdf", "params": {"cands": list("abcdef")[:n]}, "name": f"BT pdf n={n}", "xval_stride": 1, "weight": n ** 3})
     sizes = [(1, 1), (2, 1), (2, 2), (1, 3)] if q else [(a, b) for a in range(1, 5) for b in range(1, 5) if a + b <= 6]
     for sz in sizes:
@@ -260,5 +268,5 @@ def tasks(tier, seed):
 
 META = {
     "explanation": "PreferenceInterval, combine_preference_intervals, name_BradleyTerry._BT_pdf, slate_BradleyTerry._compute_ballot_type_dist and the name models' combined intervals executed with supports/cohesion as proxies in exact real arithmetic; every table entry is compared with its defining rational function by z3 after factor-aware normalisation; counterexamples are replayed on the real float code at the nearest doubles (relative tolerance 1e-9)",
-    "assumptions": ["floats abstracted as reals: rounding, overflow and underflow are outside the claim", "round(x, 8) != 1 is modelled as x != 1 (proportions summing to one exactly)", "A-FMT"],
+    "assumptions": ["floats abstracted as reals: rounding, overflow and underflow are outside the claim", "round(x, 8) != 1 is modelled as x != 1 (proportions summing to one exactly)", "A-FMT", "Bradley-Terry table: n <= 4 candidates (quick) / 5 (thorough); 6 and 7 candidates (720 / 5040 permutations) are not reached within the time budget"],
 }
